@@ -665,6 +665,24 @@ def run(ctx):
                         )
 
     ctx.section(_sec_c17_write)
+    def _sec_state():
+        # "no name taken from the analysed source is imported": whether a location is a file (parsed) or a module name
+        # (imported, the opt-in path) is decided by looking at the file system NOW. A memoised answer (`lru_cache` on the
+        # probe) is stale after the file has been written: the next command in the process imports the analysed file.
+        # C10's memoisation rule on everything reachable from the commands (the module-state part of that rule set is
+        # C10's own known finding for gen and is not repeated here).
+        from ..core import RefGraph as _RG
+        from . import c10 as _c10_state
+
+        roots_ = ["cdd.compound.gen.gen", "cdd.compound.doctrans.doctrans", "cdd.docstring.parse.docstring", "cdd.__main__.main"]
+        for r_ in roots_:
+            index.func(r_)
+        reach_ = _RG(index).reachable(roots_)
+        ctx.count("state_functions", len(reach_))
+        ctx.need(len(reach_) >= 20, "the command slice shrank to {} functions".format(len(reach_)))
+        _c10_state._memoised(ctx.view(lambda w: getattr(w, "qual", None) in reach_, rule="C17.state", prefix="state_"))
+
+    ctx.section(_sec_state)
 
 
 
